@@ -290,9 +290,31 @@ def main(argv=None):
         lrepo = Repo(a.src)
         for sp in lock_specs:
             try:
-                res = lock_check(lrepo, sp)
+                if getattr(sp, "identity", False):
+                    from pyvc.lockcheck import check_identity
+                    res = check_identity(lrepo, sp)
+                else:
+                    res = lock_check(lrepo, sp)
             except Exception as e:      # noqa
                 errors.append(f"lock discipline of {sp.cls_qual}: {type(e).__name__}: {e}")
+                continue
+            if getattr(sp, "identity", False):
+                functions.append({"function": sp.cls_qual + " (identifier-covers-every-field obligations)", "obligations": len(res),
+                                  "mode": "structure", "assumed": False})
+                if sp.note:
+                    trusted.add(sp.note)
+                for r in res:
+                    n_obl += 1
+                    all_names.add(r["name"])
+                    backends["structure-analysis"] = backends.get("structure-analysis", 0) + 1
+                    if r["status"] == "proved":
+                        n_dis += 1
+                        continue
+                    fname = re.sub(r"[^A-Za-z0-9_.-]+", "_", r["name"])[:150] + ".json"
+                    rpath = os.path.join(VERIF, "replays", prop, fname)
+                    json.dump({"property": prop, "obligation": r["name"], "kind": "structure", "source_line": r["line"],
+                               "solver_output": r["detail"], "input": None}, open(rpath, "w"), indent=1)
+                    violations.append((r["name"], rpath, " no-failing-input-found"))
                 continue
             functions.append({"function": sp.cls_qual + " (guarded_by / lock-order obligations)", "obligations": len(res),
                               "mode": "ownership", "assumed": False})
